@@ -147,8 +147,9 @@ def _queue_pos(rec):
     return pos, ranks, label_of
 
 
-def c03(rec):
+def c03(rec, state=None):
     out = []
+    requested = (state or {}).get('lease', {})
     bef, aft = rec['before'], rec['after']
     for (a, sb, _eb, sa, ea) in rec['placement']:
         if a not in aft['apps'] or sa is None:
@@ -166,9 +167,11 @@ def c03(rec):
                             % (a, ap['label'], sa, srv['label'])))
             if need and (srv['traits'] & need) != need:
                 out.append(('assigned-without-traits', 'instance %d needs traits %d, server %d has %d' % (a, need, sa, srv['traits'])))
-            if ap['lease'] and not (aft['now'] + ap['lease'] < srv['valid_until']):
+            # the lease the instance ASKED for (from the submitted record, not from the object the scheduler may have changed)
+            lease = requested.get(a, ap['lease'])
+            if lease and not (aft['now'] + lease < srv['valid_until']):
                 out.append(('assigned-past-reboot', 'instance %d lease %d from %d does not end before server %d reboots at %d'
-                            % (a, ap['lease'], aft['now'], sa, srv['valid_until'])))
+                            % (a, lease, aft['now'], sa, srv['valid_until'])))
         else:
             if srv['label'] != ap['label']:
                 out.append(('kept-on-server-of-other-partition', 'instance %d now belongs to partition %r but stays on server %d of partition %d'
@@ -177,6 +180,26 @@ def c03(rec):
                 out.append(('kept-on-server-without-traits', 'instance %d needs traits %d, stays on server %d with %d'
                             % (a, need, sa, srv['traits'])))
     return out
+
+
+def _pending_after_phases(bef, ap):
+    """is the instance without a server once _fix_invalid_placements, _handle_inactive_servers,
+    _handle_blacklisted_apps and _fix_invalid_identities have run?"""
+    sid = ap['server']
+    if sid is None or sid not in bef['servers']:
+        return True
+    s = bef['servers'][sid]
+    now = bef['now']
+    if s['state'] == 'down' and (ap['drt'] is None or s['since'] + ap['drt'] <= now):
+        return True
+    if s['state'] == 'frozen' and ap['unschedule']:
+        return True
+    if ap['blacklisted']:
+        return True
+    g = ap['group']
+    if g is not None and ap['identity'] is not None and g in bef['groups'] and ap['identity'] >= bef['groups'][g]['count']:
+        return True
+    return False
 
 
 def c06(rec):
@@ -192,6 +215,17 @@ def c06(rec):
         ranks = [r for _a, r, _p in q]
         if any(x > y for x, y in zip(ranks, ranks[1:])):
             out.append(('queue-rank-not-monotone', 'partition %d queue ranks %r' % (label, ranks)))
+        # running/pending as the statement means it: the state in which the instance is when the loop considers it,
+        # i.e. after the four phases that precede the queue (recomputed here from the snapshot before the cycle)
+        for a, _r, pend in q:
+            ap = bef['apps'].get(a)
+            if ap is None:
+                continue
+            exp = _pending_after_phases(bef, ap)
+            if bool(pend) != exp:
+                out.append(('queue-running-flag-stale',
+                            'partition %d: instance %d is %s when the loop considers it but was queued as %s'
+                            % (label, a, 'pending' if exp else 'running', 'pending' if pend else 'running')))
         groups = {}
         for a, _r, pend in q:
             ap = bef['apps'].get(a)
@@ -328,12 +362,17 @@ def run_oracle(pid, trace):
                 state.setdefault('moved_apps', {}).pop(args[1], None)
             elif args and args[0] == 'MoveServer':
                 state.setdefault('moved', set()).add(args[1])
+            elif args and args[0] == 'AddApp' and isinstance(args[3], dict):
+                # the first submission of a name carries its real attributes (later ones only re-assign it)
+                state.setdefault('lease', {}).setdefault(args[3]['name'], args[3].get('lease', 0))
+            elif args and args[0] == 'RemoveApp':
+                state.setdefault('lease', {}).pop(args[1], None)
             elif args and args[0] == 'SetState' and args[1] in state['srv']:
                 if state['srv'][args[1]][0] != STATE_NAMES[args[2]]:
                     state['srv'][args[1]] = (STATE_NAMES[args[2]], args[3])
             continue
         fn = ORACLES[pid]
-        res = fn(rec, state) if fn in (c04, c08) else fn(rec)
+        res = fn(rec, state) if fn in (c03, c04, c08) else fn(rec)
         for sig, what in res:
             out.append((sig, 'at op %d: %s' % (i, what)))
     return out
